@@ -23,7 +23,7 @@ PLANS = {
     "C11": dict(models=dict(quick=[("MC_HRaft.tla", "MC_Snapshot_q.cfg", 300)], thorough=[("MC_HRaft.tla", "MC_Snapshot_q.cfg", 900)]), families=dict(quick=[("snap", 24, 400), ("restart", 16, 400), ("snapcfgrace", 12, 0), ("phases", 10, 0)], thorough=[("snap", 200, 700), ("restart", 160, 600), ("restore", 60, 500), ("snapcfgrace", 96, 0), ("snapmember", 80, 500), ("phases", 64, 0)]), suites=["l1:compaction"]),
     "C12": dict(families=dict(quick=[("chaos", 16, 400), ("snap", 16, 400), ("restart", 12, 400), ("elect", 16, 400), ("prevoteterm", 8, 0), ("phases", 10, 0)], thorough=[("chaos", 120, 700), ("snap", 160, 700), ("restart", 120, 600), ("member", 40, 500), ("elect", 120, 500), ("restore", 60, 500), ("prevoteterm", 48, 0), ("phases", 64, 0)])),
     "C13": dict(models=dict(quick=[("LeaseTimed.tla", "LeaseTimed_q.cfg", 120)], thorough=[("LeaseTimed.tla", "LeaseTimed.cfg", 900), ("LeaseTimed.tla", "LeaseTimed_norearm.cfg", 300, "StepsDownInTime")]), families=dict(quick=[("lease", 24, 500), ("leasequiet", 8, 400), ("leaseiso", 12, 0)], thorough=[("lease", 200, 800), ("leasequiet", 48, 1200), ("leaseiso", 96, 0)])),
-    "C14": dict(models=dict(quick=[("MC_HRaft.tla", "MC_Election_q.cfg", 300)], thorough=[("MC_HRaft.tla", "MC_Election.cfg", 900)]), families=dict(quick=[("prevote", 30, 0), ("elect", 12, 400), ("prevoteterm", 6, 0)], thorough=[("prevote", 240, 0), ("elect", 120, 600), ("chaos", 60, 600), ("prevoteterm", 32, 0)])),
+    "C14": dict(models=dict(quick=[("MC_HRaft.tla", "MC_Election_q.cfg", 300)], thorough=[("MC_HRaft.tla", "MC_Election.cfg", 900)]), families=dict(quick=[("prevote", 30, 0), ("elect", 12, 400), ("prevoteterm", 6, 0), ("xferisolated", 8, 0)], thorough=[("prevote", 240, 0), ("elect", 120, 600), ("chaos", 60, 600), ("prevoteterm", 32, 0), ("xferisolated", 48, 0), ("fastpathrace", 24, 0)])),
     "C16": dict(families=dict(quick=[], thorough=[]), suites=["comp:nettrans"]),
     "C17": dict(models=dict(quick=[("Lifecycle.tla", "Lifecycle_repaired.cfg", 120), ("Lifecycle.tla", "Lifecycle_asis.cfg", 120, "NoStrandedCaller")], thorough=[("Lifecycle.tla", "Lifecycle_repaired.cfg", 300), ("Lifecycle.tla", "Lifecycle_asis.cfg", 120, "NoStrandedCaller"), ("Lifecycle.tla", "Lifecycle_unbuffered.cfg", 120, "NoStrandedCaller")]), families=dict(quick=[("lifecycle", 32, 400), ("restoreinflight", 8, 0), ("transferhang", 6, 0)], thorough=[("lifecycle", 240, 600), ("client", 60, 500), ("restore", 60, 400), ("restoreinflight", 48, 0), ("transferhang", 36, 0), ("phases", 48, 0)])),
     "C18": dict(families=dict(quick=[("notify", 32, 400), ("notifyshort", 8, 0), ("fastpathrace", 6, 0)], thorough=[("notify", 240, 600), ("elect", 80, 500), ("notifyshort", 48, 0), ("fastpathrace", 32, 0), ("phases", 48, 0)])),
